@@ -33,6 +33,8 @@ package sql
 // (so keyword positions found in the result are positions of the original text).
 //@ func asciiLower
 //@   ensures [C35.ascii_lower_same_length] len(result) == len(s)
+//@   ensures [C35.ascii_lower_maps_only_ascii_letters] forall k int :: 0 <= k && k < len(s) ==> result[k] == ite(s[k] >= 'A' && s[k] <= 'Z', s[k] + 32, s[k])
+//@   loop 1 invariant 0 <= i && i <= len(b) && len(b) == len(s) && (forall k int :: 0 <= k && k < i ==> b[k] == ite(s[k] >= 'A' && s[k] <= 'Z', s[k] + 32, s[k])) && (forall k int :: i <= k && k < len(b) ==> b[k] == s[k])
 
 // Havoc-only stubs (nothing assumed) so that the functions above can be explored path by path.
 //@ func splitColumns
@@ -43,3 +45,16 @@ package sql
 //@   modular
 //@ func splitIdentifiers
 //@   modular
+
+// Token-list helpers (no regular expressions): the loop invariants are the bounds the index expressions need.
+//@ func indexOf
+//@   ensures [C35.index_of_in_range] -1 <= result && result < len(fields)
+//@   loop 1 invariant -1 <= rangeindex && rangeindex < len(fields)
+//@ func hasToken
+//@   loop 1 invariant -1 <= rangeindex && rangeindex < len(fields)
+//@ func parseFromClause
+//@   loop 1 invariant -1 <= rangeindex && rangeindex < len(fields)
+//@ func parseJoin
+//@   loop 1 invariant -1 <= rangeindex && rangeindex < len(fields)
+//@ func parseFilters
+//@   loop 1 invariant 1 <= i
